@@ -1,6 +1,6 @@
-import NpsVerif.Model.Index
-import NpsVerif.Gen.Bridge.col_slice_slice
-import NpsVerif.Gen.Bridge.col_slice_int
-namespace Props.C02
-theorem placeholder : True := trivial
-end Props.C02
+import NpsVerif.Props.C02Kernels
+import NpsVerif.Props.C02Gather
+import NpsVerif.Props.C02GetItem
+/-! Property C02: the theorems live in `Props/C02Kernels.lean` (column-slice kernels, regenerated from
+source), `Props/C02Gather.lean` (gather-index builder, materialisation) and `Props/C02GetItem.lean`
+(end-to-end `getitem = Py.getitem`). This module collects them. -/
